@@ -95,6 +95,11 @@ open C31D
 
 def step (c impl : String) : String :=
   match fields c with
+  | ["locked", _] =>
+    -- every attempt of the write is a busy error (C31.busyRetry_all_busy: never a reported success)
+    if impl == "err" then ok "locked-write-fails"
+    else if impl == "ok-lost" then specViol "WriteAssertions reported success while the write lock was held by another connection, and the list was not stored"
+    else modelDiff "err"
   | "sf" :: _ => OpenFGAVerif.SfCase.step c impl
   | ["api", sH, mH] =>
     match unhexStr sH, unhexStr mH with
